@@ -10,6 +10,7 @@ Driver family `alphutil` (C11).  Case lines written by `harness/alephium/c11_ver
 * `hex <id> fn=tohex in=<hex> out=<strhex> back=ok:<hex>|err eq=0|1` / `fn=tob32 in=<strhex> res=ok:<hex> back=<strhex>|err:<kind>` / `fn=fixed in=<strhex> len=<n> res=..`
 * `cid <id> fn=toaddr in=<strhex> res=ok:<strhex> back=ok:<hex>|err|panic | err:<kind>` / `fn=toid in=<strhex> res=ok:<hex> back=ok:<strhex>|err | err:<kind> | panic`
 * `b58 <id> fn=enc in=<hex> out=<strhex>` / `fn=dec in=<strhex> res=ok:<hex>|panic`
+* `be <id> w=2|8 v=<n> out=<hex>` (Uint16ToBytes / Uint64ToBytes), `max8 <id> a=<n> b=<n> out=<n>` (maxUint8)
 
 field = `<bytevec>/<u256>/<i256>/<address>/<bool>`, part = `-` | `<hex type>.<hex value>` (bool value `0|1`); fields comma separated, `none` = empty.
 msg = `sender,target,nonce,payload,seq,cl,txidhex`; pub = `txhash,sec,nsec,nonce,seq,cl,ec,tc,emitter,payload`.
@@ -398,8 +399,23 @@ def stepB58 (st : St) (id : String) (rest : List String) : St × List String :=
     | _, _ => (st, [s!"diff {id} unparsable b58 line"])
   | _ => (st, [s!"diff {id} unparsable b58 line"])
 
+def stepHelper (st : St) (op id : String) (rest : List String) : St × List String :=
+  let st := { st with n := st.n + 1 }
+  if op = "be" then
+    match kvNat rest "w", kvNat rest "v", kvHex rest "out" with
+    | some w, some v, some out =>
+      if be w v = out then (st, [s!"ok {id}"]) else (st, [s!"diff {id} Uint{w * 8}ToBytes({v}) model={toHex (be w v)} impl={toHex out}"])
+    | _, _, _ => (st, [s!"diff {id} unparsable be line"])
+  else
+    match kvNat rest "a", kvNat rest "b", kvNat rest "out" with
+    | some a, some b, some out =>
+      if max a b = out then (st, [s!"ok {id}"]) else (st, [s!"diff {id} maxUint8({a},{b}) model={max a b} impl={out}"])
+    | _, _, _ => (st, [s!"diff {id} unparsable max8 line"])
+
 def step (st : St) (line : String) : St × List String :=
   match fields line with
+  | "be" :: id :: rest => stepHelper st "be" id rest
+  | "max8" :: id :: rest => stepHelper st "max8" id rest
   | "cv" :: id :: rest => stepCv st id rest
   | "msg" :: id :: rest => stepMsg st id rest
   | "pub" :: id :: rest => stepPub st id rest
